@@ -5,6 +5,8 @@ package invocation
 import (
 	"time"
 
+	"github.com/ipld/go-ipld-prime/datamodel"
+	"github.com/ipld/go-ipld-prime/fluent/qp"
 	"github.com/ipld/go-ipld-prime/node/basicnode"
 
 	"github.com/ucan-wg/go-ucan/did"
@@ -44,11 +46,18 @@ func c20Int(tag string) int64 {
 func VerifC20() {
 	vNow(1700000000, 0)
 	n := 1 + vChoose("links", vParam("N"))
+	needList := false
 	invIss, sub, links := verifConformingLinks(n)
 	// policies held in slices with spare capacity, as a caller-built policy may be
 	for i := range links {
-		if vChoose("pol"+string(rune('0'+i)), 2) == 1 {
-			p, err := policy.Construct(policy.GreaterThanOrEqual(".a?", basicnode.NewInt(c20Int("c"+string(rune('0'+i))))))
+		if k := vChoose("pol"+string(rune('0'+i)), 3); k > 0 {
+			ctor := policy.GreaterThanOrEqual(".a?", basicnode.NewInt(c20Int("c"+string(rune('0'+i)))))
+			if k == 2 { // a selector with open / negative slice bounds over a list argument
+				sel := []string{".l[1:]", ".l[-2:]", ".l[:-1]"}[vChoose("slice"+string(rune('0'+i)), 3)]
+				ctor = policy.All(sel+"?", policy.GreaterThanOrEqual(".", basicnode.NewInt(c20Int("c"+string(rune('0'+i))))))
+				needList = true
+			}
+			p, err := policy.Construct(ctor)
 			if err != nil {
 				vSkip("unreachable: constructor failed")
 			}
@@ -59,6 +68,20 @@ func VerifC20() {
 	a := args.New()
 	for _, k := range c20Order("arg_order", vParam("K")) {
 		if err := a.Add(k, c20Int("arg_"+k)); err != nil {
+			vSkip("unreachable: Add failed")
+		}
+	}
+	if needList {
+		ln := vChoose("list_len", 4)
+		nd, err := qp.BuildList(basicnode.Prototype.Any, int64(ln), func(la datamodel.ListAssembler) {
+			for i := 0; i < ln; i++ {
+				qp.ListEntry(la, qp.Int(c20Int("l"+string(rune('0'+i)))))
+			}
+		})
+		if err != nil {
+			vSkip("unreachable: list build failed")
+		}
+		if err := a.Add("l", nd); err != nil {
 			vSkip("unreachable: Add failed")
 		}
 	}
